@@ -144,10 +144,14 @@ class Gen:
             return None
         return v / table[a] * table[b]
 
-    def evaluation(self, table, kind=None):
+    def evaluation(self, table, kind=None, pool=None):
         rng = self.rng
         rated = sorted(table)
         a, b = rng.choice(rated), rng.choice(rated)
+        if pool:
+            # a focused history: the operands are (mostly) the currencies whose rates the history changes
+            a = rng.choice(pool) if rng.random() < 0.8 else a
+            b = rng.choice(pool) if rng.random() < 0.8 else b
         if rng.random() < 0.1:
             b = a
         kind = kind or rng.choice(["convert"] * 4 + ["literal", "addsub", "addsub", "scale", "ratio", "chain", "variable"])
@@ -228,9 +232,21 @@ class Gen:
         table = dict(self.rates)
         ops, steps = [], []
         n = rng.randint(2, max_ops)
+        # half of the histories are focused on two or three currencies (the base currency USD among them more often
+        # than not): the same currency is updated AND used as an operand of conversions and of + - / afterwards
+        pool = None
+        if rng.random() < 0.5:
+            pool = rng.sample([c for c in self.codes if c not in self.tz_codes], rng.randint(2, 3))
+            if rng.random() < 0.6 and "USD" in self.codes and "USD" not in pool:
+                pool[0] = "USD"
         for i in range(n):
             if i < n - 1 and rng.random() < 0.55:
                 name = self.update_name(table)
+                if pool and rng.random() < 0.75:
+                    c = rng.choice(pool)
+                    name = rng.choice([c, c.lower(), mixed(rng, c)] + self.names.get(c, []) + self.symbols.get(c, []))
+                    if resolve(name, self.cur, self.alias) != c:
+                        name = c
                 rate = rng.choice(NEW_RATES) if rng.random() < 0.8 else round(rng.uniform(0.01, 500), rng.randint(0, 6))
                 code = resolve(name, self.cur, self.alias)
                 ops.append({"op": "update_currency", "cur": name, "rate": str(bits(rate))})
@@ -238,10 +254,32 @@ class Gen:
                 if code is not None:
                     table[code] = Fraction(repr(float(rate)))
             else:
-                text, e = self.evaluation(table)
+                text, e = self.evaluation(table, pool=pool)
                 ops.append({"op": "exec", "lang": "en", "text": text})
                 steps.append(e)
-        return {"ops": ops, "meta": {"kind": "update-history", "steps": steps}}
+        return {"ops": ops, "meta": {"kind": "update-history" + ("-focused" if pool else ""), "steps": steps}}
+
+    def pinned_histories(self):
+        """a changed rate of the BASE currency takes effect in conversions and in money arithmetic alike"""
+        out = []
+        for upd in ("usd", "$", "dollar"):
+            if resolve(upd, self.cur, self.alias) != "USD":
+                continue
+            table = dict(self.rates)
+            table["USD"] = Fraction(2)
+            ops = [{"op": "update_currency", "cur": upd, "rate": str(bits(2.0))}]
+            steps = [{"ret": True}]
+            eur, tr = Fraction(5), Fraction(100)
+            for text, e in (("5 eur + $10", self.expect("Money", "EUR", eur + self.conv(table, Fraction(10), "USD", "EUR"), scale=Fraction(10))),
+                            ("$10 + 5 eur", self.expect("Money", "USD", Fraction(10) + self.conv(table, eur, "EUR", "USD"), scale=Fraction(10))),
+                            ("5 eur - 10 usd", self.expect("Money", "EUR", eur - self.conv(table, Fraction(10), "USD", "EUR"), scale=Fraction(10))),
+                            ("100 try / $10", self.expect("Number", None, tr / self.conv(table, Fraction(10), "USD", "TRY"))),
+                            ("$100 / 10 try", self.expect("Number", None, Fraction(100) / self.conv(table, Fraction(10), "TRY", "USD"))),
+                            ("10 usd to eur", self.expect("Money", "EUR", self.conv(table, Fraction(10), "USD", "EUR"), scale=Fraction(10)))):
+                ops.append({"op": "exec", "lang": "en", "text": text})
+                steps.append(e)
+            out.append({"ops": ops, "meta": {"kind": "update-history-pinned", "steps": steps}})
+        return out
 
     def known_cases(self):
         """a few cases of each recorded mechanism, with the expectation of the statement"""
@@ -340,6 +378,7 @@ def generate(rng, tier):
                 cases.append(g.single("symbol", (text, g.expect("Money", code, Fraction(v)))))
     # the recorded findings: a few cases of each mechanism, with the statement's expectation (see known_class)
     cases.extend(g.known_cases())
+    cases.extend(g.pinned_histories())
     # neighbours of the literal forms the statement does not promise: under the correspondence check only
     for text in ["1 usd to tmt", "10 usd to лв", "$ 10", "usd 10", "10kusd"]:
         cases.append(g.single("limit", (text, {"typ": "Money", "cur": None})))
